@@ -161,6 +161,14 @@ def classify(ctx, events, v, n, tag, trace_path):
         elif x.get("ev") == "settle":
             died = []
     sig["last_point"] = died[-1]["point"] if died else None
+    if e.get("ev") == "replayed":
+        sig["class"] = "replay-drops-wal-entries"
+        return sig, ("node %s restarted with raft last index %s although its WAL returned entries up to %s: entries above "
+                     "the persisted commit index were dropped at replay" % (e.get("n"), e.get("raft_last"), e.get("wal_last")))
+    if e.get("ev") == "published":
+        sig["class"] = "publish-before-save"
+        return sig, ("node %s handed entry %s to the apply loop while the largest index saved to its WAL was %s"
+                     % (e.get("n"), e.get("pub"), e.get("saved")))
     if e.get("ev") == "sent":
         sig["class"] = "send-before-persist"
         return sig, ("node %s: processReady sent the messages of a Ready that changes term/vote before persisting it, and it was "
